@@ -587,6 +587,88 @@ Proof.
   eapply reach_bind; [exact H|]. intros s' [A B]. apply reach_now. split; [exact A|]. rewrite B, Ho. reflexivity.
 Qed.
 
+(* non-vacuity of (4) for READ / DATA / RESTORE:
+   10 DATA 7, 8 / 20 READ I, J / 30 PRINT I + J; / 40 RESTORE / 50 READ J: PRINT J; *)
+Definition ex6_lines := [HLine (bs "10 DATA 7, 8"); HLine (bs "20 READ I, J"); HLine (bs "30 PRINT I + J;"); HLine (bs "40 RESTORE"); HLine (bs "50 READ J: PRINT J;")].
+Definition ex6_s : interp := set_state Running (snd (run_from_first_numbered_line (StoreProofs.run_state 50 init_interp ex6_lines))).
+Definition vJ : bytes := [74%N].
+Definition d78 : list data_elem := [DNum (f64_of_Z 7); DNum (f64_of_Z 8)].
+Definition ex6_p : rprogram :=
+  [(10%N, [SData d78]);
+   (20%N, [SRead [(vI, []); (vJ, [])]]);
+   (30%N, [SPrint [PExpr (XBin RAdd (XVar vI) (XVar vJ)); PSemi]]);
+   (40%N, [SRestore]);
+   (50%N, [SRead [(vJ, [])]; SPrint [PExpr (XVar vJ); PSemi]])].
+
+Lemma ex6_line30 : LRen 8 [SPrint [PExpr (XBin RAdd (XVar vI) (XVar vJ)); PSemi]] [TPrint; TSymbol vI; TPlus; TSymbol vJ; TSemicolon].
+Proof.
+  apply LR_last.
+  apply (SR_print 8 0 [] [PExpr (XBin RAdd (XVar vI) (XVar vJ)); PSemi] [MExpr (EBin (BAddSub OAdd) (EVar vI) (EVar vJ)); MSemi]
+           [TSymbol vI; TPlus; TSymbol vJ; TSemicolon]); try reflexivity; try (cbn; lia).
+  apply (IR_expr [] (EBin (BAddSub OAdd) (EVar vI) (EVar vJ)) [TSymbol vI; TPlus; TSymbol vJ] [MSemi] [TSemicolon]); [|reflexivity|].
+  - do 3 (apply R_incl; [lia|]).
+    apply (R_bin (BAddSub OAdd) (EVar vI) (EVar vJ) [TSymbol vI] [TSymbol vJ]).
+    + do 4 (apply R_incl; [cbn; lia|]). constructor.
+    + do 3 (apply R_incl; [cbn; lia|]). constructor.
+  - apply IR_semi. apply IR_nil. reflexivity.
+Qed.
+
+Lemma ex6_line50 : LRen 8 [SRead [(vJ, [])]; SPrint [PExpr (XVar vJ); PSemi]] ([TRead; TSymbol vJ] ++ TColon :: [TPrint; TSymbol vJ; TSemicolon]).
+Proof.
+  apply LR_cons.
+  - apply (SR_read 8 0 _ [vJ]). discriminate.
+  - apply LR_last.
+    apply (SR_print 8 0 [] [PExpr (XVar vJ); PSemi] [MExpr (EVar vJ); MSemi] [TSymbol vJ; TSemicolon]); try reflexivity; try (cbn; lia).
+    apply (IR_expr [] (EVar vJ) [TSymbol vJ] [MSemi] [TSemicolon]); [apply R0_var | reflexivity|].
+    apply IR_semi. apply IR_nil. reflexivity.
+Qed.
+
+Example ex6_sim : Sim 8 ex6_p [] (0, 0) (r_init 0) ex6_s.
+Proof.
+  apply (Sim_at 8 ex6_p [] 0 0 (r_init 0) ex6_s false).
+  - split; try reflexivity.
+    + repeat constructor.
+    + intros li n stmts H.
+      destruct li as [|[|[|[|[|li]]]]]; cbn in H; try (destruct li; discriminate); inversion H; subst; eexists; (split; [vm_compute; reflexivity|]).
+      * apply LR_last. apply (SR_data 8 0 [] d78). reflexivity.
+      * apply LR_last. apply (SR_read 8 0 [] [vI; vJ]). discriminate.
+      * exact ex6_line30.
+      * apply LR_last. apply SR_restore.
+      * exact ex6_line50.
+    + intros n H.
+      assert (E : map fst (st_toks ex6_s) = [50%N; 40%N; 30%N; 20%N; 10%N]) by (vm_compute; reflexivity).
+      cbn [map fst ex6_p In].
+      destruct (N.eqb_spec 50 n); [subst; tauto|]. destruct (N.eqb_spec 40 n); [subst; tauto|].
+      destruct (N.eqb_spec 30 n); [subst; tauto|].
+      destruct (N.eqb_spec 20 n); [subst; tauto|]. destruct (N.eqb_spec 10 n); [subst; tauto|].
+      exfalso. apply H.
+      match goal with |- toks_get n (st_toks ?x) = None =>
+        let v := eval vm_compute in (st_toks x) in change (st_toks x) with v end.
+      cbn [toks_get].
+      repeat match goal with |- context [N.eqb ?a n] => destruct (N.eqb_spec a n); [congruence|] end. reflexivity.
+  - reflexivity.
+  - split; intros name; reflexivity.
+  - reflexivity.
+  - split; [reflexivity | constructor].
+  - constructor.
+  - intros name x H. vm_compute in H. discriminate.
+  - vm_compute. reflexivity.
+  - exists 10%N, [SData d78], [TData d78], [TData d78].
+    split; [reflexivity|]. split; [vm_compute; reflexivity|]. split; [reflexivity|]. split; [reflexivity|].
+    apply LR_last. apply (SR_data 8 0 [] d78). reflexivity.
+Qed.
+Example ex6_runs : exists st', rrun 8 ex6_p 40 (0,0) (r_init 0) = Done st' /\ r_out st' = [bs "15"; bs "7"]
+  /\ reach (fun s => state s = Idle /\ outputs s = map OPrint [bs "15"; bs "7"]) ex6_s.
+Proof.
+  pose proof (fragment_simulation 8 ex6_p [] 40 (0,0) (r_init 0) ex6_s ex6_sim) as H.
+  destruct (rrun 8 ex6_p 40 (0,0) (r_init 0)) as [pc st'|st'|er l st'|] eqn:E; try (vm_compute in E; discriminate).
+  exists st'. split; [reflexivity|].
+  assert (Ho : r_out st' = [bs "15"; bs "7"]).
+  { vm_compute in E. inversion E. reflexivity. }
+  split; [exact Ho|]. unfold after_step in H.
+  eapply reach_bind; [exact H|]. intros s' [A B]. apply reach_now. split; [exact A|]. rewrite B, Ho. reflexivity.
+Qed.
+
 (* non-vacuity: the manual's nested-loop example (NEXT I forgets the J loop)
    and a GOSUB in a colon line, run by the reference interpreter *)
 Definition nx := XNum (f64_of_Z 1).
